@@ -538,6 +538,9 @@ func (w FederatingWrappedCallbacks) accept(c context.Context, a vocab.ActivitySt
 			}
 			// Ensure that we are one of the actors on the Follow.
 			actors := follow.GetActivityStreamsActor()
+			if actors == nil {
+				continue
+			}
 			for iter := actors.Begin(); iter != actors.End(); iter = iter.Next() {
 				id, err := ToId(iter)
 				if err != nil {
@@ -587,6 +590,9 @@ func (w FederatingWrappedCallbacks) accept(c context.Context, a vocab.ActivitySt
 				// Ensure that we are one of the actors on the Follow.
 				ok = false
 				actors := follow.GetActivityStreamsActor()
+				if actors == nil {
+					return fmt.Errorf("peer gave an Accept wrapping a Follow but the stored Follow has no actor")
+				}
 				for iter := actors.Begin(); iter != actors.End(); iter = iter.Next() {
 					id, err := ToId(iter)
 					if err != nil {
@@ -611,6 +617,9 @@ func (w FederatingWrappedCallbacks) accept(c context.Context, a vocab.ActivitySt
 				}
 				// Verify all actor(s) were on the original Follow.
 				followObj := follow.GetActivityStreamsObject()
+				if followObj == nil {
+					return fmt.Errorf("peer gave an Accept wrapping a Follow but the stored Follow has no object")
+				}
 				for iter := followObj.Begin(); iter != followObj.End(); iter = iter.Next() {
 					id, err := ToId(iter)
 					if err != nil {
